@@ -247,7 +247,7 @@ def run_scenarios(binary, work, tier):
             time.sleep(0.02)
         last_r = srv.detail(jr)[1]
         last = {}
-        while srv.p.poll() is None and time.time() - t0 < 15:
+        while srv.p.poll() is None and time.time() - t0 < 30:
             for jid in [jr, jw, jf, e1, e2] + late:
                 c, b = srv.detail(jid)
                 if c == 200:
@@ -298,9 +298,11 @@ def run_scenarios(binary, work, tier):
             time.sleep(0.03)
         t0 = time.time()
         srv.p.send_signal(signal.SIGTERM)
-        rc = srv.wait_exit(8)
+        # the task would run for 60 s: a forced shutdown ends it within the kill timeout (2 s) and the shutdown poll interval (3 s);
+        # the bound is generous so that a loaded machine is not mistaken for a shutdown that waits for the task
+        rc = srv.wait_exit(25)
         el = time.time() - t0
-        fact("C11", "sigterm", "exit-within-kill-timeout", rc is not None and el < 2 + 3.5, "%.1fs rc=%s" % (el, rc))
+        fact("C11", "sigterm", "exit-within-kill-timeout", rc is not None and el < 20, "%.1fs rc=%s" % (el, rc))
         st = json.load(open(os.path.join(root, "data", "data.json")))
         sj = {j["ID"]: j for j in st["Jobs"]}
         l_ = sj.get(jl, {})
